@@ -105,18 +105,30 @@ impl<I: Clone, O: Clone, C: WorkCoalescingCore<I, O>> WorkCoalescingQueue<I, O, 
         let mut waiter = self.wait_list.link(WaitState::Input(input));
         let (work, mut core, taken) = {
             let mut state = self.state.lock().unwrap();
+            #[cfg(blue_verif)]
+            crate::verif::event("enter", waiter.index(), state.doing_work as u64, 0);
             while state.doing_work || !waiter.is_head() {
                 match waiter.load() {
                     WaitState::Input(_) => {
                         AWAIT_INPUT.click();
+                        #[cfg(blue_verif)]
+                        crate::verif::event("wait", waiter.index(), state.doing_work as u64, 0);
                         state = waiter.naked_wait(state);
+                        #[cfg(blue_verif)]
+                        crate::verif::event("woke", waiter.index(), state.doing_work as u64, 0);
                     }
                     WaitState::Stolen => {
                         AWAIT_STOLEN.click();
+                        #[cfg(blue_verif)]
+                        crate::verif::event("wait", waiter.index(), state.doing_work as u64, 1);
                         state = waiter.naked_wait(state);
+                        #[cfg(blue_verif)]
+                        crate::verif::event("woke", waiter.index(), state.doing_work as u64, 1);
                     }
                     WaitState::Output(o) => {
                         SAW_OUTPUT.click();
+                        #[cfg(blue_verif)]
+                        crate::verif::event("saw_output", waiter.index(), state.doing_work as u64, 0);
                         self.wait_list.unlink(waiter);
                         self.wait_list.notify_head();
                         return o;
@@ -132,14 +144,20 @@ impl<I: Clone, O: Clone, C: WorkCoalescingCore<I, O>> WorkCoalescingQueue<I, O, 
                 }
                 WaitState::Output(o) => {
                     SAW_OUTPUT.click();
+                    #[cfg(blue_verif)]
+                    crate::verif::event("saw_output", waiter.index(), state.doing_work as u64, 1);
                     self.wait_list.unlink(waiter);
                     self.wait_list.notify_head();
                     return o;
                 }
             }
             state.doing_work = true;
+            #[cfg(blue_verif)]
+            crate::verif::event("leader", waiter.index(), 0, 0);
             let mut work = C::InputAccumulator::default();
             let mut core = self.core.lock().unwrap();
+            #[cfg(blue_verif)]
+            crate::verif::event("core_locked", waiter.index(), 0, 0);
             let mut taken = 0;
             'waiters: for mut w in waiter.iter() {
                 match w.load() {
@@ -148,7 +166,11 @@ impl<I: Clone, O: Clone, C: WorkCoalescingCore<I, O>> WorkCoalescingQueue<I, O, 
                             work = core.batch(work, input);
                             w.store(WaitState::Stolen);
                             taken += 1;
+                            #[cfg(blue_verif)]
+                            crate::verif::event("stole", w.index(), taken as u64, 0);
                         } else {
+                            #[cfg(blue_verif)]
+                            crate::verif::event("break", w.index(), taken as u64, 0);
                             break 'waiters;
                         }
                     }
@@ -157,18 +179,26 @@ impl<I: Clone, O: Clone, C: WorkCoalescingCore<I, O>> WorkCoalescingQueue<I, O, 
                     }
                 };
             }
+            #[cfg(blue_verif)]
+            crate::verif::event("batched", waiter.index(), taken as u64, 0);
             (work, core, taken)
         };
+        #[cfg(blue_verif)]
+        crate::verif::event("work", waiter.index(), taken as u64, 0);
         let outputs = core.work(taken, work);
         for (mut w, out) in std::iter::zip(waiter.iter().take(taken), outputs) {
             w.store(WaitState::Output(out));
             w.notify();
+            #[cfg(blue_verif)]
+            crate::verif::event("gave", w.index(), 0, 0);
         }
         if let WaitState::Output(o) = waiter.load() {
             self.wait_list.unlink(waiter);
             {
                 let mut state = self.state.lock().unwrap();
                 state.doing_work = false;
+                #[cfg(blue_verif)]
+                crate::verif::event("clear", 0, 0, 0);
             }
             self.wait_list.notify_head();
             o
